@@ -11,7 +11,7 @@ import (
 // Generators for worlds: contexts, operands, programs. Everything is drawn
 // from a plan.Rng; nothing else is a source of choice.
 
-var precisions = []uint32{1, 2, 3, 5, 7, 9, 16, 20, 34, 60}
+var precisions = []uint32{1, 2, 3, 5, 7, 9, 16, 20, 34, 60, 100, 130, 200}
 
 type erange struct{ max, min int32 }
 
